@@ -25,6 +25,12 @@ LoggedTopos == [s \in 1..Len(E.topos) |-> IF E.topos[s].n > 0 THEN E.topos[s] EL
 \* frame condition: every slot other than s reports exactly what it reported before
 OthersUnchanged(s) == \A k \in 1..Len(topos) : k # s => LoggedTopos[k] = topos[k]
 AllUnchanged == LoggedTopos = topos
+\* lazy store observation (recorder option "stores 2"): before the first xml_export event the projections carry no store queries (hasst = 0),
+\* so that the recorder does not refresh what the exporter must refresh by itself; that event is the first one with them
+SameModStores(a, b) == IF a.n = 0 \/ b.n = 0 \/ a.hasst = b.hasst THEN a = b
+                       ELSE [a EXCEPT !.stores = <<>>, !.hasst = 0] = [b EXCEPT !.stores = <<>>, !.hasst = 0]
+AllUnchangedModStores == /\ Len(LoggedTopos) = Len(topos)
+                         /\ \A k \in 1..Len(topos) : SameModStores(LoggedTopos[k], topos[k])
 
 TReset == /\ IsEvent("Reset")
           /\ slots' = [s \in 1..E.nslots |-> NoSlot]
@@ -129,11 +135,11 @@ TXmlExport ==
   /\ IsEvent("xml_export")
   /\ slots[S].st = "loaded"
   /\ E.ret = 0 /\ E.len > 0 /\ E.cbfail = 0
-  /\ AllUnchanged
+  /\ AllUnchangedModStores
   /\ E.ud = 0 => E.deliv = <<>>
   \* the export callback is invoked exactly for the objects whose userdata is not NULL (all of them are tagged)
   /\ E.ud = 1 => {E.deliv[k][1] : k \in DOMAIN E.deliv} = GpSet(topos[S])
-  /\ LET d == [path |-> E.path, src |-> topos[S], flags |-> E.flags, digest |-> E.digest, len |-> E.len, deliv |-> E.deliv,
+  /\ LET d == [path |-> E.path, src |-> LoggedTopos[S], flags |-> E.flags, digest |-> E.digest, len |-> E.len, deliv |-> E.deliv,
                srcflags |-> slots[S].flags] IN
        \* fixpoint: a topology that was itself imported from a document exported with the same flags re-exports the same bytes
        \* (an importer told to ignore distances / memattrs / cpukinds legitimately re-exports less)
@@ -141,7 +147,8 @@ TXmlExport ==
            /\ ~Bit(slots[S].flags, 128) /\ ~Bit(slots[S].flags, 256) /\ ~Bit(slots[S].flags, 512)) =>
               (E.digest = slots[S].origin.digest /\ E.len = slots[S].origin.len)
        /\ docs' = Append(SelectSeq(docs, LAMBDA x : x.path # E.path), d)
-  /\ UNCHANGED <<slots, topos>>
+  /\ topos' = LoggedTopos
+  /\ UNCHANGED slots
 
 TXmlImport ==
   /\ IsEvent("xml_import")
